@@ -7,11 +7,13 @@
     extra  <cfg> <owner> <prop>             a property ES5 does not list: `nonenum` / `enum`
     forin  <cfg> <subject>                  keys shown by for-in over an ordinary value
     link   <cfg> <subject>                  "<[[Prototype]] owner>:<[[Class]]>" of a value the language creates
-    bind   <cfg> <owner> <prop>             Go-level wiring "<mode>:<name>:<call>:<construct>"
+    bind   <cfg> <owner> <prop>             Go-level wiring "<mode>:<name>:<call>:<construct>"  (prop `@self`: the owner itself,
+                                            "<class>:<name>:<call>:<construct>")
     static <cfg> order|eval                 propertyOrder = keys(property) on every reachable object; rt.eval is global.eval
     same   <cfgA> <cfgB>                    the two dumps are identical (modulo user globals)
     probe  <cfg> <owner> <prop> <jshex>     a distinguishing call of the built-in function evaluates to true
     noprobe <owner> <prop>                  a built-in function without a probe (always a disagreement)
+    dynfn  <cfg> <kind> <L> <n> <field>     shape of a function object created at run time (L parameters, n bound arguments)
   <cfg> ∈ fresh fresh2 under copy copy2 usedcopy undercopy; the tables do not depend on it except for the
   user globals (`_`, `userFn`, `userGlobal`) that for-in over the global object rightly shows.
 -/
@@ -46,13 +48,20 @@ def listAll : String :=
   let fi := Spec.forIn.map (fun (k, _) => "forin/" ++ k)
   let li := Spec.links.map (fun (k, _) => "link/" ++ k)
   let bs := (Spec.flatten Model.bindTable).map (fun (o, p, _) => "bind/" ++ o.path ++ "/" ++ p)
-  ",".intercalate (es ++ os ++ fi ++ li ++ bs)
+  let ss := Model.selfTable.map (fun (o, _) => "bind/" ++ o.path ++ "/@self")
+  ",".intercalate (es ++ os ++ fi ++ li ++ bs ++ ss)
 
 def isFnSlot (t : Spec.Slot) : Bool :=
   match t.val with
   | .fn _ => true
   | .ref o => Model.isCtor o
   | _ => false
+
+def dynKind? : String → Option Spec.DynKind
+  | "node" => some .node | "newfn" => some .newfn | "bound" => some .bound | _ => none
+def dynField? : String → Option Spec.DynField
+  | "length" => some .length | "hasproto" => some .hasproto | "protoattr" => some .protoattr | "ctor" => some .ctor
+  | "enumown" => some .enumown | "callerdesc" => some .callerdesc | _ => none
 
 def handleO (ws : List String) : Option String :=
   match ws with
@@ -84,7 +93,7 @@ def handleO (ws : List String) : Option String :=
   | ["bind", cfg, o, p] => do
     guard (cfgs.contains cfg)
     let o ← Spec.Owner.ofPath? o
-    let s ← Spec.lookup Model.bindTable o p
+    let s ← (if p = "@self" then Spec.assoc o Model.selfTable else Spec.lookup Model.bindTable o p)
     pure (reply s s "-")
   | ["static", cfg, "order"] => do guard (cfgs.contains cfg); pure (reply "consistent" "consistent" "-")
   | ["static", cfg, "eval"] => do guard (cfgs.contains cfg); pure (reply "ok" "ok" "-")
@@ -96,6 +105,13 @@ def handleO (ws : List String) : Option String :=
     guard (isFnSlot t)
     pure (reply "true" "true" "-")
   | ["noprobe", _, _] => pure (reply "present" "present" "-")
+  | ["dynfn", cfg, k, l, n, f] => do
+    guard (cfgs.contains cfg)
+    let k ← dynKind? k
+    let f ← dynField? f
+    let l ← l.toNat?
+    let n ← n.toNat?
+    pure (reply (Model.dyn k l n f) (Spec.dyn k l n f) (Model.devDyn k f))
   | _ => none
 
 def handle (ws : List String) : String :=
